@@ -18,6 +18,7 @@ EXPLANATION = (
     'Also decided (round 9): Every socket.timeout handler of receive_data ends the read with TimeoutError (a stalled peer costs at most COMMTIMEOUT). '
     "Also decided (round 11): Nothing switches the accepted socket's blocking mode after the communication timeout was put on it; every name read in the request-path modules is bound somewhere. "
     "Also decided (round 10): A refused peer is neither read from nor waited for between the answer and the close (shared from C08); the pool's capacity is what its two sets say and a new worker is counted only once started (shared from C18). "
+    "Also decided (round 12): The receiver's size refusal looks at data AND annotation length (shared from C06). "
     "Not decided: correctness of the replies to well-behaved clients, accounting values, "
     "liveness against a peer that stalls without disconnecting."
 )
@@ -85,6 +86,10 @@ def run(ctx, R, tier):
         # the other property's own anchors are gone on this tree: its check reports that; what it produced before is still shared
         R.note("obligations shared from C06 are incomplete on this tree: %s" % _shared_x)
     for o in R6.obs:
+        if o.rule == "C06-R4" and o.key.split("|")[1] == "receiver":
+            # an oversized message is refused on its 40 header bytes: the refusal looks at data AND annotation length - otherwise a hostile header makes the daemon buffer
+            # gigabytes while it holds a worker or the multiplex loop
+            R.add("C05-R6", "receiver|" + o.key.split("|", 2)[2], o.desc + " (a peer cannot make the daemon read an oversized body)", o.ok, o.loc, o.detail)
         if o.key == "C06-R3|decoder|chunk-length-unsigned":
             R.add("C05-R6", "decoder|chunk-length-unsigned", o.desc + " (a negative length would keep the cursor from advancing: the worker / the multiplex "
                   "thread would spin forever on one hostile message)", o.ok, o.loc, o.detail)
